@@ -32,6 +32,10 @@ type CrashPlan struct {
 	Heights uint64
 	WithTxs bool
 	Torn    bool // WAL image = synced prefix + part of the unsynced/next record (torn tail)
+	VotesFirst bool // the victim is sent a round's block parts only after it has seen +2/3 prevotes (so that its
+	// prevote and precommit are queued together)
+	Late    bool // crash at the LAST instant with durable prefix p: just before unit p+1 is written (everything the
+	// node did since unit p - handled and gossiped messages included - is lost with the unsynced buffers)
 }
 
 func (p CrashPlan) mode() string {
@@ -111,17 +115,24 @@ func CrashCase(c *core.Case, plan CrashPlan, p int) {
 		return
 	}
 	victim := net.Nodes[plan.Victim]
+	if plan.VotesFirst {
+		votesFirstFilter(net, plan.Victim)
+	}
 	startIdx := victim.Dur.Len()
 	if p < startIdx {
 		run.Count("points_before_consensus_start_skipped", 1)
 		return
 	}
+	haltAt := p
+	if plan.Late {
+		haltAt = p + 1
+	}
 	net.AfterStimulus = func(n *Node) {
-		if n == victim && victim.Dur.Len() >= p {
+		if n == victim && victim.Dur.Len() >= haltAt {
 			net.Halt = true
 		}
 	}
-	if victim.Dur.Len() >= p {
+	if victim.Dur.Len() >= haltAt {
 		net.Halt = true
 	}
 	txRound := 0
@@ -153,6 +164,14 @@ func CrashCase(c *core.Case, plan CrashPlan, p int) {
 		if e.Kind == EvRecv && e.Own && e.DurIdx <= p {
 			if k, bid, ok := ownSignKey(e.Msg); ok {
 				published[k] = bid
+			}
+		}
+	}
+	// blocks whose SaveBlock had not become durable at p were not committed as far as the surviving files know
+	for _, e := range victim.Tr.Since(0) {
+		if e.Kind == EvSaveBlock && e.DurIdx >= p {
+			if d, ok := agree.Decided[e.Height]; ok && d.node == victim.Idx {
+				delete(agree.Decided, e.Height)
 			}
 		}
 	}
@@ -302,7 +321,12 @@ func CrashCase(c *core.Case, plan CrashPlan, p int) {
 		run.Count("sign_requests_after_restart", 1)
 		if old, ok := published[k]; ok {
 			if old != bid {
-				c.Violation(key("double-sign:"+strings.ToLower(strings.TrimPrefix(k.t, "SIGNED_MSG_TYPE_"))), fmt.Sprintf("after the restart the validator signed a %s at %d/%d for %s although it had published one for %s before the crash", k.t, k.h, k.r, short(bid), short(old)), wit(""))
+				sym := "double-sign:"
+				if !walHasOwn(img, k) {
+					// the published message is not even in the surviving log: it was handled (and gossiped) before it was durable
+					sym = "double-sign-of-a-message-published-before-it-was-durable:"
+				}
+				c.Violation(key(sym+strings.ToLower(strings.TrimPrefix(k.t, "SIGNED_MSG_TYPE_"))), fmt.Sprintf("after the restart the validator signed a %s at %d/%d for %s although it had published one for %s before the crash", k.t, k.h, k.r, short(bid), short(old)), wit(""))
 			} else {
 				run.Count("re_signed_same_content", 1)
 			}
@@ -397,6 +421,9 @@ func GoldenLen(plan CrashPlan) (total int, start int, err error) {
 		return 0, 0, err
 	}
 	start = net.Nodes[plan.Victim].Dur.Len()
+	if plan.VotesFirst {
+		votesFirstFilter(net, plan.Victim)
+	}
 	txRound := 0
 	for net.MinHeight() < plan.Heights {
 		if plan.WithTxs {
@@ -427,3 +454,43 @@ func walHasEndHeight(img []byte, h int64) bool {
 }
 
 func bytesReader(b []byte) io.Reader { return bytes.NewReader(b) }
+
+
+// votesFirstFilter delays the block parts sent to node v until it holds a +2/3 prevote majority of its round.
+func votesFirstFilter(net *Net, v int) {
+	net.Filter = func(from, to *Node, m consensus.Message) bool {
+		if to.Idx != v {
+			return true
+		}
+		if _, ok := m.(*consensus.BlockPartMessage); !ok {
+			return true
+		}
+		rs := to.CS.GetRoundState()
+		if rs.Votes == nil || rs.Step >= 6 { // precommit or later: let the parts through
+			return true
+		}
+		pv := rs.Votes.Prevotes(rs.Round)
+		if pv == nil {
+			return false
+		}
+		_, ok := pv.TwoThirdsMajority()
+		return ok
+	}
+}
+
+
+// walHasOwn reports whether the WAL image contains an own (internal) vote/proposal with the given height/round/type.
+func walHasOwn(img []byte, k signKey) bool {
+	dec := consensus.NewWALDecoder(bytesReader(img))
+	for {
+		m, err := dec.Decode()
+		if err != nil {
+			return false
+		}
+		if mi, ok := m.Msg.(consensus.VerifMsgInfo); ok && mi.PeerID == "" {
+			if kk, _, ok := ownSignKey(mi.Msg); ok && kk == k {
+				return true
+			}
+		}
+	}
+}
